@@ -1,6 +1,7 @@
 import RactorModel.Lemmas.LifeRest
 import RactorModel.Lemmas.LifeWorld
 import RactorModel.Model.TreeConc
+import RactorModel.Props.C05
 
 /-!
 # C05 ∘ Life — where `TreeConc.Rest` comes from (wave 2)
@@ -33,6 +34,9 @@ One `Life.Actor` per tree node `x` (`w : Nat → Actor`):
 * `rest_of_fair_polls` — hence `Rest` holds at the end of every family of runs that is *fair*: every pending kill
   is followed by a poll of that actor's task and every open `post_stop` by an effective poll (`Fair`).
 * `rest_of_world` — the same for the composed `Life.World` (what the E-LTS driver replays).
+* `exit_takes_subtree_under_fair_polls`, `link_under_exiting_under_fair_polls` — `C05.conc_exit_takes_subtree` /
+  `C05.conc_link_under_exiting` with `Rest` REPLACED by: the final `pc` / kill-flag / status fields of the tree run
+  agree (`Agree`) with a family of `Life` actors at the end of fair runs. `Agree` is the explicit, un-proved link.
 
 NOT proved (the two models are not composed step by step): that the tree fields `sup`/`kids` of the `Life` world
 evolve as `Tree.cstep` prescribes; the bridge is about the status / pc / kill-flag fields `Rest` talks about.
@@ -186,6 +190,72 @@ theorem rest_of_world (ops : List Op) (h : ∀ op ∈ ops, op ≠ .case)
   rw [e] at this
   exact this
 
+
+/-! ### The composed statement: C05's conclusion without the hypothesis `Rest`
+
+`Rest g` reads only three fields of the tree state: `pc`, the ghost `killed`, `status`. If those agree with the
+abstraction of a family of `Life` actors at the end of fair runs (`Agree`: the un-proved link between the two models,
+stated as a hypothesis), `conc_exit_takes_subtree` / `conc_link_under_exiting` hold with fairness of polling in
+place of `Rest`. -/
+
+/-- the three fields `Rest` reads agree with the abstraction of the family `w` (the ghost `killed` of the tree
+model is sticky, the signal port of a finished actor is empty: a kill flag means "kill in the port, or done") -/
+def Agree (g : Tree.CState) (w : Nat → Actor) : Prop :=
+  ∀ x, g.pc x = absPc (w x) ∧ (g.t.killed x = true → (w x).sigVal = true ∨ (w x).phase = .done) ∧
+    g.t.status x = absStatus (w x).status
+
+theorem rest_transfer {g : Tree.CState} {n : Nat} {w : Nat → Actor} (h : Agree g w)
+    (hr : Tree.Rest (absState n w)) : Tree.Rest g := by
+  intro x
+  obtain ⟨h1, h2, h3⟩ := h x
+  obtain ⟨r1, r2⟩ := hr x
+  refine ⟨?_, fun hk => ?_⟩
+  · rw [h1]; exact r1
+  · rw [h1]
+    rcases hk with hk | hk
+    · rcases h2 hk with hs | hd
+      · exact r2 (Or.inl hs)
+      · simp [absState, absPc, hd]
+    · exact r2 (Or.inr (by rw [h3] at hk; exact hk))
+
+/-- **C05 (1)+(2) under fair polling.** `a` on its way out at `ops0`, `z` beneath it; ANY continuation `ops` of the
+tree schedule whose final `pc` / kill flag / status fields are those of a family of `Life` actors at the end of FAIR
+runs (every pending kill followed by a poll of that actor's task, every open `post_stop` by an effective poll): `z`
+is Stopped, closed and detached, unless it (or an actor between) was unlinked / handed over by an outside thread. -/
+theorem exit_takes_subtree_under_fair_polls (ops0 ops : List Tree.COp) (a z : Nat)
+    (ha : Tree.Exiting (Tree.crun Tree.cinit ops0) a) (hd : Tree.Desc (Tree.crun Tree.cinit ops0).t a z)
+    (l0 lOf : Nat → List AOp) (hf : ∀ x, Fair ((Actor.init x).run (l0 x)).1 (lOf x))
+    (hag : Agree (Tree.crun (Tree.crun Tree.cinit ops0) ops)
+      (fun x => (((Actor.init x).run (l0 x)).1.run (lOf x)).1)) :
+    ((Tree.crun (Tree.crun Tree.cinit ops0) ops).t.status z = .stopped ∧
+      (Tree.crun (Tree.crun Tree.cinit ops0) ops).t.kids z = none ∧
+      (Tree.crun (Tree.crun Tree.cinit ops0) ops).t.sup z = none) ∨
+    ∃ y, Tree.DescP (Tree.crun Tree.cinit ops0).t a y ∧ Tree.Desc (Tree.crun Tree.cinit ops0).t y z ∧
+      Tree.escRun (Tree.crun Tree.cinit ops0) ops y = true :=
+  C05.conc_exit_takes_subtree ops0 ops a z ha hd (rest_transfer hag (rest_of_fair_polls 0 l0 lOf hf))
+
+/-- **C05 (4)/(5) under fair polling**: an accepted `link` / start link under an exiting target. -/
+theorem link_under_exiting_under_fair_polls (ops0 ops : List Tree.COp) (c p : Nat) (start : Bool)
+    (hp : Tree.Exiting (Tree.crun Tree.cinit ops0) p)
+    (hacc : (if start then Tree.linkStart (Tree.crun Tree.cinit ops0).t c p
+             else Tree.link (Tree.crun Tree.cinit ops0).t c p).2 = true)
+    (l0 lOf : Nat → List AOp) (hf : ∀ x, Fair ((Actor.init x).run (l0 x)).1 (lOf x))
+    (hag : Agree (Tree.crun (Tree.crun Tree.cinit ops0) ((if start then Tree.COp.linkStart c p else .link c p) :: ops))
+      (fun x => (((Actor.init x).run (l0 x)).1.run (lOf x)).1))
+    (hne : Tree.escRun (Tree.cstep (Tree.crun Tree.cinit ops0) (if start then .linkStart c p else .link c p)) ops c
+      = false) :
+    (Tree.crun (Tree.crun Tree.cinit ops0) ((if start then Tree.COp.linkStart c p else .link c p) :: ops)).t.status c
+      = .stopped :=
+  C05.conc_link_under_exiting ops0 ops c p start hp hacc (rest_transfer hag (rest_of_fair_polls 0 l0 lOf hf)) hne
+
+-- the agreement on a killed actor that finished: tree model `pc = done`, sticky kill flag, `Stopped` /
+-- `Life`: `Dead` after one poll
+example :
+    let g := Tree.crun Tree.cinit [.spawn, .begin 0 true, .xstep 0, .xstep 0, .xstep 0, .xstep 0, .xstep 0, .xstep 0,
+      .xstep 0, .xstep 0, .xstep 0, .xstep 0]
+    let w := ((Actor.init 0).run [.spawn none none true false true, .resume ⟨[], .ok⟩, .pollSpawn true, .kill, .poll]).1
+    g.pc 0 = absPc w ∧ g.t.killed 0 = true ∧ w.phase = .done ∧ g.t.status 0 = absStatus w.status := by decide
+
 /-! Non-vacuity: a parent killed, its child reached by `terminate()`; not at rest before the child's task is
 polled, at rest (both `Stopped`) after one poll each. -/
 
@@ -211,3 +281,6 @@ end C05Life
 #print axioms C05Life.rest_of_fair_polls
 #print axioms C05Life.fair_kill_is_final
 #print axioms C05Life.rest_of_world
+#print axioms C05Life.rest_transfer
+#print axioms C05Life.exit_takes_subtree_under_fair_polls
+#print axioms C05Life.link_under_exiting_under_fair_polls
